@@ -4,6 +4,7 @@
 //! result: {"r":"done","steps":[..],"all_ok":bool,"dump":verif_dump(),
 //!          "render":{"r":"ok"|"render-panic"|..} (when asked),
 //!          "probes":[{"v":"ok:<DefaultKind debug>"|"err"|"panic","o":[[kind,text]..]|null|"panic"}..]}
+//! case:   {"re_pairs":[[pattern, string]..]} -> {"r":"re","re":[bool..]}  (regress find, as validate_value uses it)
 //! Tokens are flattened: ["i",ident] ["p",punct char] ["s",decoded string literal] ["l",other literal text]
 //! ["g","(" | ")" | "[" | "]" | "{" | "}"].
 use std::str::FromStr;
@@ -67,6 +68,21 @@ fn probe(ts: &TypeSpace, id: u64, value: &Value) -> Value {
 
 fn main() {
     vh::run_lines(|case| {
+        // regex table for the model's `re` parameter, computed by the real regress crate exactly as the
+        // Newtype arm of validate_value does: Regex::new(p).map(|r| r.find(s).is_some()).unwrap_or(false)
+        if let Some(pairs) = case["re_pairs"].as_array() {
+            let out: Vec<Value> = pairs
+                .iter()
+                .map(|p| {
+                    let pat = p[0].as_str().unwrap_or("");
+                    let s = p[1].as_str().unwrap_or("");
+                    json!(regress::Regex::new(pat)
+                        .map(|re| re.find(s).is_some())
+                        .unwrap_or(false))
+                })
+                .collect();
+            return json!({"r":"re","re":out});
+        }
         let settings = vh::settings_from_json(&case["settings"]);
         let mut ts = TypeSpace::new(&settings);
         let empty = vec![];
